@@ -154,6 +154,7 @@ def check(run):
             "create o", "create v", "post v ok 1 " + hx("NICK victim"), "post v ok 2 " + hx("USER u 0 * :r"), "post o ok 1 " + hx("NICK oper"), "post o ok 2 " + hx("USER u 0 * :r"),
             "post o ok 3 " + hx("OPER op secret"), "getconfig " + PW, "snapshot 7200", "restart", "getconfig " + PW,
             "postconfig %s 1 %s" % (PW, hx(cfgA)),                      # the configuration in force now comes from a Config entry, not from a restore
+            "getconfig " + PW,                                          # read at this revision before the GLINE: the next read must still show the ban
             "post o ok 4 " + hx("GLINE victim :spam"), "getconfig " + PW,
             "postconfig %s 2 %s" % (PW, hx(cfgB)), "getconfig " + PW,
             "restart", "getconfig " + PW]
@@ -163,15 +164,15 @@ def check(run):
         bad = bad or ("harness", err or "short output", gops)
     else:
         body = lambda i: canon_cfg(bytes.fromhex(kv(gl[i]).get("body", "")).decode("utf-8", "replace"))
-        c1, c2, c3, c4, c5 = body(9), body(12), body(15), body(17), body(19)
+        c1, c2, c3, c4, c5 = body(9), body(12), body(16), body(18), body(20)
         if c1 != c2:
             bad = bad or ("restore-differs", "GET /config differs before and after snapshot+restore at the same revision: %r / %r" % (diffline(c1, c2)), gops[:13])
         elif "spam" not in c3:
-            bad = bad or ("gline", "the ban set by GLINE is not part of the configuration (GET /config)", gops[:16])
-        elif kv(gl[16]).get("status") != "200":
-            bad = bad or ("rev-after-gline", "a config update naming the current revision was refused after a GLINE: %s" % gl[16], gops[:17])
+            bad = bad or ("gline", "the ban set by GLINE is not part of the configuration (GET /config)", gops[:17])
+        elif kv(gl[17]).get("status") != "200":
+            bad = bad or ("rev-after-gline", "a config update naming the current revision was refused after a GLINE: %s" % gl[17], gops[:18])
         elif "spam" in c4:
-            bad = bad or ("stale-ban", "an accepted configuration without bans took effect, but a ban of the previous configuration is still in force", gops[:18])
+            bad = bad or ("stale-ban", "an accepted configuration without bans took effect, but a ban of the previous configuration is still in force", gops[:19])
         elif c4 != c5:
             bad = bad or ("restore-differs", "GET /config differs before and after a restart at the same revision: %r / %r" % (diffline(c4, c5)), gops)
     # the configuration in force decides what the node does, not what it answered under an earlier revision: the CORS grant
